@@ -115,6 +115,9 @@ def _rad_sum(m, th, ph, exact=False):
 def _setup(case):
     rng = random.Random(case['seed'])
     spec = case['spec']
+    if case.get('fixed_sources'):
+        m = gen.build(spec); m.compute()
+        return rng, spec, m
     m0 = gen.build(dict(spec, sources=[], loads=[]))
     n = len(m0.pulses)
     gnd = [i for i, p in enumerate(m0.pulses) if p.ground.any()]
@@ -324,6 +327,31 @@ def _in_domain(m, spec):
                 return False
     return True
 
+def _misapplied_exact(m):
+    """The code switches to the exact (on-axis) kernel when observer and source objects are connected and
+    (d0 + d3) / seg_len <= 1.1, d0 / d3 the distances of the observation point from the two ends of the source
+    segment.  That is meant to recognise an observer ON the source segment; at a junction of wires with unequal
+    segment lengths it also holds for observers on the OTHER wire (the shorter its segment, the wider the angle).
+    Returns True when some scalar-potential observation point that is not collinear with the source segment
+    passes that test."""
+    for pn in m.pulses:
+        for hn in (0, 1):
+            sg = pn.segs[hn]
+            a = np.array(pn.point, dtype=float); b = np.array(pn.ends[hn], dtype=float)
+            L = float(np.linalg.norm(b - a))
+            if L == 0: continue
+            for pm in m.pulses:
+                if pm is pn: continue
+                if not (pm.geobj is pn.geobj or pm.geobj.is_connected(pn.geobj)): continue
+                for hm in (0, 1):
+                    o = (np.array(pm.point, dtype=float) + np.array(pm.ends[hm], dtype=float)) / 2
+                    d0 = np.linalg.norm(a - o); d3 = np.linalg.norm(b - o)
+                    if (d0 + d3) / L <= 1.1:
+                        cr = np.linalg.norm(np.cross(a - o, b - o))
+                        if cr > 1e-6 * L * L and cr / (max(d0, 1e-300) * max(d3, 1e-300)) > math.sin(math.radians(1.0)):
+                            return True
+    return False
+
 def c01_oracle(payload):
     from mininec.mininec import Angle
     from numpy.polynomial.legendre import leggauss
@@ -360,6 +388,7 @@ def c01_oracle(payload):
                     p_load += 0.5 * l.impedance(m.f, p).real * abs(m.current[p.idx]) ** 2
             imb = (p_rad + p_load - p_src) / p_app
             r['imbalance'] = imb; r['real_ground'] = real
+            r['features'] = dict(exact_kernel_applied_off_axis=_misapplied_exact(m))
             bad = []
             if abs(m.power - p_src) > 1e-12 * p_app:
                 bad.append('power used for normalisation %r is not sum Re(V I*)/2 = %r' % (m.power, p_src))
